@@ -17,7 +17,7 @@ STARTS = [x for x in c7.STARTS if isinstance(x, str)]
 LITERALS = ["x", " ", "é", "a-b", "{}"]
 ESCAPES = {"\\a": 7, "\\b": 8, "\\f": 12, "\\n": 10, "\\r": 13, "\\t": 9, "\\v": 11, "\\\\": 92, "\\0": 0, "\\101": 65, "\\7": None, "\\012": 10}
 DIRECTIVES = ["p", "f", "h", "H", "P", "d"]
-WIDTHS = ["", "1", "5", "-5", "12", "-12", "-", "03"]
+WIDTHS = ["", "1", "5", "-5", "12", "-12", "70", "-70", "-", "03"]
 
 
 def items_vocab(tier):
@@ -25,7 +25,7 @@ def items_vocab(tier):
     v += [(t, "esc", c) for t, c in ESCAPES.items() if c is not None]
     v += [("%%", "lit", "%")]
     for d in DIRECTIVES:
-        for w in (WIDTHS if tier != "quick" else WIDTHS[:6]):
+        for w in (WIDTHS if tier != "quick" else WIDTHS[:8]):
             v.append(("%" + w + d, "dir", (d, w)))
     return v
 
@@ -70,8 +70,21 @@ def str_natives():
         if r.ty == "Range": return _slice(s, r.fields[0], r.fields[1])
         raise Unsupported("str index by " + r.ty)
 
+    def _sym(v):
+        v = deref(v)
+        while isinstance(v, (Ptr, BoxObj)):
+            v = deref(v)
+        return v if isinstance(v, SymStr) else None
+
     def chars(m, args):
+        sv = _sym(args[0])
+        if sv is not None:
+            return Struct("Chars", [list(sv.chars), 0])        # symbolic name bytes are ASCII (1..127): one char per byte
         return Struct("Chars", [[ord(c) for c in _t(args[0])], 0])
+
+    def chars_count(m, args):
+        lst, pos = deref(args[0]).fields
+        return len(lst) - pos
 
     def chars_next(m, args):
         it = deref(args[0])
@@ -114,8 +127,9 @@ def str_natives():
 
     nat = {
         "<str as Index>::index": index, "str::chars": chars, "<Chars as Iterator>::next": chars_next, "str::find": find,
-        "str::len": lambda m, a: len(_t(a[0]).encode()),
-        "str::as_bytes": lambda m, a: SliceRef(list(_t(a[0]).encode())),
+        "<Chars as Iterator>::count": chars_count,
+        "str::len": lambda m, a: len(_sym(a[0]).chars) if _sym(a[0]) is not None else len(_t(a[0]).encode()),
+        "str::as_bytes": lambda m, a: SliceRef(list(_sym(a[0]).chars) if _sym(a[0]) is not None else list(_t(a[0]).encode())),
         "str::split_at": lambda m, a: Tuple([RStr(_t(a[0]).encode()[:a[1]].decode()), RStr(_t(a[0]).encode()[a[1]:].decode())]),
         "str::is_char_boundary": lambda m, a: a[1] == len(_t(a[0]).encode()) or (a[1] < len(_t(a[0]).encode()) and (_t(a[0]).encode()[a[1]] & 0xC0) != 0x80),
         "char::len_utf8": lambda m, a: len(chr(deref(a[0])).encode()),
